@@ -110,6 +110,129 @@ pub fn poll_once(poller: &mut dv::Poller, phc: Option<PhcInfo>, answer: &Answer,
     PollObs { messages, reads, query }
 }
 
+/// What one iteration of a batch did.
+pub struct IterObs {
+    pub message: Option<Message>,
+    /// clock reads of this iteration (starting with the as-of read)
+    pub reads: Vec<ClockRead>,
+    /// the query whose reply was delivered: (position in `reads`, virtual mono at the query, at the reply)
+    pub query: Option<(usize, i128, i128)>,
+}
+
+/// What a scripted iteration is made of (C13 drives whole batches through one call of the real loop,
+/// so that state the loop keeps across iterations is exercised too).
+pub struct BatchStep {
+    pub gap_ns: i128,
+    pub latency_ns: i128,
+    pub answer: Answer,
+    pub read_delays: Vec<i128>,
+    /// action performed when the iteration starts (e.g. change the PHC error-bound file)
+    pub at_start: Option<Box<dyn FnMut()>>,
+}
+
+thread_local! {
+    static BATCH: RefCell<Vec<(Answer, i128)>> = const { RefCell::new(Vec::new()) };
+    static BATCH_CUR: std::cell::Cell<usize> = const { std::cell::Cell::new(usize::MAX) };
+}
+
+/// Run `steps.len()` consecutive iterations of the real poller loop in ONE call of it. The start of an
+/// iteration is recognised by its as-of read (the only CLOCK_MONOTONIC_COARSE read of the loop); at
+/// that moment the step's gap elapses, its start action runs and its read delays are queued.
+pub fn poll_batch(poller: &mut dv::Poller, phc: Option<PhcInfo>, mut steps: Vec<BatchStep>, vc: &VClock) -> Vec<IterObs> {
+    let n = steps.len();
+    if n == 0 {
+        return vec![];
+    }
+    let (mut mboxes, dbox) = new_channel_web(vec![ChannelId::ClockErrorBoundPoller, ChannelId::ShmWriter, ChannelId::MainThread]);
+    let mbox = mboxes.get_mailbox(&ChannelId::ClockErrorBoundPoller).unwrap();
+    let shm_mbox = mboxes.get_mailbox(&ChannelId::ShmWriter).unwrap();
+    let _main = mboxes.get_mailbox(&ChannelId::MainThread).unwrap();
+    let ctx = Context {
+        mbox,
+        dbox: dbox.clone(),
+        channel_id: ChannelId::ClockErrorBoundPoller,
+    };
+    // n - 1 messages the loop ignores ("unexpected message"), then the abort: exactly n iterations
+    for _ in 0..n - 1 {
+        dbox.send(&ChannelId::ClockErrorBoundPoller, Message::ChronyNotResponding).unwrap();
+    }
+    dbox.send(&ChannelId::ClockErrorBoundPoller, Message::ThreadAbort).unwrap();
+    BATCH.with(|b| *b.borrow_mut() = steps.iter().map(|s| (s.answer.clone(), s.latency_ns)).collect());
+    BATCH_CUR.with(|c| c.set(usize::MAX));
+    QUERY_LOG.with(|q| q.borrow_mut().clear());
+    let _ = vc.take_log();
+    // iteration boundaries, recorded as positions in the clock log
+    let starts: std::rc::Rc<RefCell<Vec<usize>>> = Default::default();
+    let starts2 = starts.clone();
+    let mut next = 0usize;
+    let mut gaps: Vec<(i128, Vec<i128>, Option<Box<dyn FnMut()>>)> = steps.drain(..).map(|s| (s.gap_ns, s.read_delays, s.at_start)).collect();
+    crate::clock::set_on_read(Some(Box::new(move |clk, st| {
+        if clk != CLK_COARSE || next >= gaps.len() {
+            return;
+        }
+        let (gap, delays, action) = &mut gaps[next];
+        st.mono_ns += *gap;
+        if let Some(a) = action.as_mut() {
+            a();
+        }
+        st.pre_read_delays.clear();
+        st.pre_read_delays.extend(delays.iter().copied());
+        starts2.borrow_mut().push(st.log.len());
+        BATCH_CUR.with(|c| c.set(next));
+        next += 1;
+    })));
+    dv::set_thread_responder(Some(Box::new(|_req, _opts| {
+        let cur = BATCH_CUR.with(|c| c.get());
+        let (answer, latency) = BATCH.with(|b| b.borrow().get(cur).cloned()).expect("query outside a scripted iteration");
+        let vc = crate::clock::current().expect("no virtual clock");
+        let pos = vc.log_len();
+        let t0 = vc.mono();
+        vc.advance(latency);
+        let t1 = vc.mono();
+        QUERY_LOG.with(|q| q.borrow_mut().push((pos, t0, t1)));
+        match answer {
+            Answer::Tracking(r) => Ok(wire_reply(&r, 7)),
+            Answer::Silence => Err(std::io::Error::new(std::io::ErrorKind::TimedOut, "scripted silence")),
+            Answer::Malformed => Err(std::io::Error::new(std::io::ErrorKind::InvalidData, "scripted malformed reply")),
+            Answer::WrongType => Ok(Reply {
+                status: Status::Success,
+                cmd: 0,
+                sequence: 7,
+                body: ReplyBody::Null,
+            }),
+        }
+    })));
+    dv::run_poller(ctx, poller, phc, Duration::ZERO);
+    dv::set_thread_responder(None);
+    crate::clock::set_on_read(None);
+    vc.clear_delays();
+    let log = vc.take_log();
+    let queries: Vec<(usize, i128, i128)> = QUERY_LOG.with(|q| q.borrow().clone());
+    let messages: Vec<Message> = shm_mbox.try_iter().collect();
+    let starts = starts.borrow().clone();
+    let mut out = vec![];
+    for k in 0..starts.len() {
+        let a = starts[k];
+        let b = starts.get(k + 1).copied().unwrap_or(log.len());
+        // the last query issued inside this iteration
+        let q = queries.iter().filter(|q| q.0 >= a && q.0 <= b).last().map(|q| (q.0 - a, q.1, q.2));
+        out.push(IterObs {
+            message: messages.get(k).cloned(),
+            reads: log[a..b].to_vec(),
+            query: q,
+        });
+    }
+    // more messages than iterations would be a violation of "one message per poll"
+    if messages.len() != starts.len() {
+        out.push(IterObs {
+            message: None,
+            reads: vec![],
+            query: None,
+        });
+    }
+    out
+}
+
 // ------------------------------------------------------------------------------------------------
 // C13
 
@@ -242,7 +365,6 @@ fn check_c13_case(case: &PollCase, env: &mut Env) -> Verdict {
         }
     };
     set_phc(&case.phc_file);
-    let mut phc_now = case.phc_file.clone();
     let phc = case.phc_refid.map(|refid| PhcInfo {
         refid,
         sysfs_error_bound_path: phc_path.clone(),
@@ -260,32 +382,77 @@ fn check_c13_case(case: &PollCase, env: &mut Env) -> Verdict {
         }
     };
     let mut ever_answered = false;
-    for (i, st) in case.steps.iter().enumerate() {
-        vc.advance(st.gap_ns as i128);
-        if let Some(f) = &st.phc_change {
-            if *f != phc_now {
-                v.label("phc-file-changed-between-polls");
-            }
-            set_phc(f);
-            phc_now = f.clone();
-        }
-        if st.restart {
+    // consecutive polls without a restart run as ONE call of the real loop
+    let phc_now = std::rc::Rc::new(RefCell::new(case.phc_file.clone()));
+    let mut i = 0usize;
+    let mut all_obs: Vec<(usize, IterObs, PhcFile)> = vec![];
+    let mut restarts_at: Vec<(usize, i128)> = vec![];
+    while i < case.steps.len() {
+        if case.steps[i].restart {
             v.label("daemon-restart");
             poller = dv::Poller::default();
             let rs = vc.take_log();
-            last_good = rs.iter().find(|r| r.clock_id == CLK_MONO).map(|r| r.value_ns - 5_000_000_000).unwrap_or(last_good);
-            ever_answered = false;
+            restarts_at.push((i, rs.iter().find(|r| r.clock_id == CLK_MONO).map(|r| r.value_ns - 5_000_000_000).unwrap_or(0)));
         }
-        vc.clear_delays();
-        vc.push_delays(&st.read_delays.iter().map(|d| *d as i128).collect::<Vec<_>>());
-        let obs = poll_once(&mut poller, phc.clone(), &st.answer, st.latency_ns as i128, &vc);
-        vc.clear_delays();
-        v.sub_evals += 1;
-        if obs.messages.len() != 1 {
-            v.fail(format!("poll {}: {} messages were sent to the writer (expected exactly 1)", i, obs.messages.len()));
+        let mut j = i + 1;
+        while j < case.steps.len() && !case.steps[j].restart {
+            j += 1;
+        }
+        let mut batch = vec![];
+        let file_states: std::rc::Rc<RefCell<Vec<PhcFile>>> = Default::default();
+        for st in &case.steps[i..j] {
+            let change = st.phc_change.clone();
+            let pp = phc_path.clone();
+            let now = phc_now.clone();
+            let fs2 = file_states.clone();
+            batch.push(BatchStep {
+                gap_ns: st.gap_ns as i128,
+                latency_ns: st.latency_ns as i128,
+                answer: st.answer.clone(),
+                read_delays: st.read_delays.iter().map(|d| *d as i128).collect(),
+                at_start: Some(Box::new(move || {
+                    if let Some(f) = &change {
+                        let _ = std::fs::remove_file(&pp);
+                        let _ = std::fs::remove_dir(&pp);
+                        match f {
+                            PhcFile::Value(x) => std::fs::write(&pp, format!("{}\n", x)).unwrap(),
+                            PhcFile::Missing => {}
+                            PhcFile::Directory => std::fs::create_dir(&pp).unwrap(),
+                        }
+                        *now.borrow_mut() = f.clone();
+                    }
+                    fs2.borrow_mut().push(now.borrow().clone());
+                })),
+            });
+        }
+        if j - i > 1 {
+            v.label("several-polls-in-one-loop-call");
+        }
+        let obs = poll_batch(&mut poller, phc.clone(), batch, &vc);
+        let states = file_states.borrow().clone();
+        if obs.len() != j - i {
+            v.fail(format!("polls {}..{}: the loop ran {} iterations / sent a different number of messages for {} scripted polls", i, j, obs.len(), j - i));
             break;
         }
-        let msg = &obs.messages[0];
+        for (k, o) in obs.into_iter().enumerate() {
+            all_obs.push((i + k, o, states.get(k).cloned().unwrap_or(PhcFile::Missing)));
+        }
+        i = j;
+    }
+    for (i, obs, phc_now) in all_obs {
+        let st = &case.steps[i];
+        if let Some((_, lg)) = restarts_at.iter().find(|r| r.0 == i) {
+            last_good = *lg;
+            ever_answered = false;
+        }
+        if case.steps[..=i].iter().rev().take_while(|s| !s.restart).count() > 0 && st.phc_change.is_some() {
+            v.label("phc-file-changed-between-polls");
+        }
+        v.sub_evals += 1;
+        let Some(msg) = obs.message.as_ref() else {
+            v.fail(format!("poll {}: no message was sent to the writer", i));
+            break;
+        };
         let Some((qpos, _t0, _t1)) = obs.query else {
             v.fail(format!("poll {}: chronyd was not queried", i));
             break;
